@@ -172,13 +172,14 @@ func (h *helper) body() *ast.BlockStmt {
 }
 
 type normalizer struct {
-	curSig  *types.Signature // signature of the function being rewritten (nil when unknown)
-	fset    *token.FileSet
-	helpers map[*types.Func]*helper
-	locals  map[types.Object]*helper // local closures by their variable
-	n       int
-	changed map[*ast.File]*packages.Package
-	imports map[*ast.File]map[string]string // path -> name to add
+	curSig   *types.Signature // signature of the function being rewritten (nil when unknown)
+	fset     *token.FileSet
+	helpers  map[*types.Func]*helper
+	locals   map[types.Object]*helper // local closures by their variable
+	n        int
+	unrolled int
+	changed  map[*ast.File]*packages.Package
+	imports  map[*ast.File]map[string]string // path -> name to add
 }
 
 // normalize returns an overlay (abs file -> new content) with non-baseline helpers inlined, or nil if nothing changed.
@@ -195,6 +196,17 @@ func normalize(pkgs []*packages.Package, dropUnused bool) map[string][]byte {
 		}
 	})
 	sort.Slice(mod, func(i, j int) bool { return mod[i].PkgPath < mod[j].PkgPath })
+	// 0. local tables of function literals that are only ranged over
+	for _, p := range mod {
+		for _, f := range p.Syntax {
+			for _, d := range f.Decls {
+				if fd, ok := d.(*ast.FuncDecl); ok && fd.Body != nil {
+					nz.unrollTables(p, f, fd)
+					nz.selectCalls(p, f, fd)
+				}
+			}
+		}
+	}
 	// 1. candidates
 	for _, p := range mod {
 		for _, f := range p.Syntax {
@@ -242,7 +254,7 @@ func normalize(pkgs []*packages.Package, dropUnused bool) map[string][]byte {
 			}
 		}
 	}
-	if len(nz.helpers) == 0 && len(nz.locals) == 0 && !nz.hasIIFE(mod) {
+	if len(nz.helpers) == 0 && len(nz.locals) == 0 && !nz.hasIIFE(mod) && nz.unrolled == 0 {
 		return nil
 	}
 	// reference counts
@@ -399,7 +411,7 @@ func notInlinable(fd *ast.FuncDecl, obj *types.Func, info *types.Info) string {
 				why = "uses defer other than a top-level `defer x.m(pure args)`"
 			}
 		case *ast.LabeledStmt:
-			why = "has labels"
+			// labels are renamed per inlined copy
 		case *ast.BranchStmt:
 			if x.Tok == token.GOTO {
 				why = "uses goto"
@@ -711,12 +723,66 @@ func nonNilErrorReturns(h *helper) []bool {
 	return out
 }
 
+// paramUsed: the helper's body mentions its parameter name.
+func paramUsed(h *helper, name string) bool {
+	for _, id := range h.free {
+		if id.Name != name {
+			continue
+		}
+		if v, ok := h.pkg.TypesInfo.Uses[id].(*types.Var); ok && !v.IsField() {
+			return true
+		}
+	}
+	return false
+}
+
+// mentioned: an argument other than the i-th mentions the identifier.
+func mentioned(args []ast.Expr, i int, name string) bool {
+	found := false
+	for j, a := range args {
+		if j == i {
+			continue
+		}
+		ast.Inspect(a, func(n ast.Node) bool {
+			if id, ok := n.(*ast.Ident); ok && id.Name == name {
+				found = true
+			}
+			return true
+		})
+	}
+	return found
+}
+
+// countNested: a copy of h's body was placed somewhere; every reference it holds to another helper or local closure is one
+// more use of that helper (so that its definition is not dropped while copies still call it – the next round inlines them).
+func (nz *normalizer) countNested(h *helper) {
+	for _, id := range h.free {
+		obj := h.pkg.TypesInfo.Uses[id]
+		if obj == nil {
+			continue
+		}
+		if fn, ok := obj.(*types.Func); ok {
+			if o := nz.helpers[fn.Origin()]; o != nil && o != h {
+				o.uses++
+			}
+		}
+		if o := nz.locals[obj]; o != nil && o != h {
+			o.uses++
+		}
+	}
+}
+
+// inlineSeq numbers inlined copies across all rounds of one process, so that generated labels and temporaries never clash
+// with those of an earlier round.
+var inlineSeq int
+
 func (nz *normalizer) inlineStmtsP(h *helper, p *packages.Package, f *ast.File, call *ast.CallExpr, recv ast.Expr, prop *propagation) (stmts []ast.Stmt, results []string, ok bool) {
 	if !nz.hygienic(h, p, f, call.Pos()) {
 		return nil, nil, false
 	}
 	nz.n++
-	id := nz.n
+	inlineSeq++
+	id := inlineSeq
 	sig := h.sig
 	names, ptypes := paramList(h)
 	args := call.Args
@@ -741,6 +807,13 @@ func (nz *normalizer) inlineStmtsP(h *helper, p *packages.Package, f *ast.File, 
 		vs := &ast.ValueSpec{}
 		var keep []ast.Expr
 		for i, n := range names {
+			// a function literal passed as an argument is bound by `name := func…` of its own, so that the next round sees a
+			// local closure used only as a callee (evaluating a literal has no effect, so its place among the arguments does
+			// not matter); not when another argument mentions the name, which the new variable would capture
+			if lit, isLit := ast.Unparen(args[i]).(*ast.FuncLit); isLit && n != "_" && paramUsed(h, n) && !mentioned(args, i, n) {
+				inner = append(inner, &ast.AssignStmt{Lhs: []ast.Expr{ast.NewIdent(n)}, Tok: token.DEFINE, Rhs: []ast.Expr{lit}})
+				continue
+			}
 			te, tok := nz.typeExpr(ptypes[i], p, f)
 			if !tok {
 				return nil, nil, false
@@ -751,7 +824,9 @@ func (nz *normalizer) inlineStmtsP(h *helper, p *packages.Package, f *ast.File, 
 				keep = append(keep, ast.NewIdent(n))
 			}
 		}
-		inner = append(inner, &ast.DeclStmt{Decl: &ast.GenDecl{Tok: token.VAR, Specs: []ast.Spec{vs}}})
+		if len(vs.Names) > 0 {
+			inner = append(inner, &ast.DeclStmt{Decl: &ast.GenDecl{Tok: token.VAR, Specs: []ast.Spec{vs}}})
+		}
 		if len(keep) > 0 {
 			lhs := make([]ast.Expr, len(keep))
 			for i := range lhs {
@@ -779,6 +854,20 @@ func (nz *normalizer) inlineStmtsP(h *helper, p *packages.Package, f *ast.File, 
 	}
 	body := file.Decls[0].(*ast.FuncDecl).Body
 	label := fmt.Sprintf("inl%d", id)
+	// labels of the helper (its own, or those of copies inlined into it earlier) are function-scoped: give this copy its own
+	ast.Inspect(body, func(n ast.Node) bool {
+		switch x := n.(type) {
+		case *ast.FuncLit:
+			return false
+		case *ast.LabeledStmt:
+			x.Label = ast.NewIdent(fmt.Sprintf("%sc%d", x.Label.Name, id))
+		case *ast.BranchStmt:
+			if x.Label != nil {
+				x.Label = ast.NewIdent(fmt.Sprintf("%sc%d", x.Label.Name, id))
+			}
+		}
+		return true
+	})
 	bad := false
 	nret := 0
 	retIdx := 0
@@ -892,6 +981,7 @@ func (nz *normalizer) inlineStmtsP(h *helper, p *packages.Package, f *ast.File, 
 	}
 	stmts = append(stmts, &ast.BlockStmt{List: inner})
 	h.inl++
+	nz.countNested(h)
 	nz.changed[f] = p
 	nlog("inlined %s at %s", h.name, p.Fset.Position(call.Pos()))
 	return stmts, results, true
@@ -1407,24 +1497,43 @@ func (nz *normalizer) rewriteExprs(p *packages.Package, f *ast.File, fd *ast.Fun
 			sub[n] = &ast.CallExpr{Fun: &ast.ParenExpr{X: te}, Args: []ast.Expr{a}}
 		}
 		okSub := true
+		// only identifiers that denote a parameter are substituted (not field keys of a struct literal, selectors or locals of
+		// a nested literal that happen to carry a parameter's name): found on the type-checked original, matched by position
+		// in the traversal
+		paramObj := map[types.Object]bool{}
+		for i := 0; i < h.sig.Params().Len(); i++ {
+			paramObj[h.sig.Params().At(i)] = true
+		}
+		if r := h.sig.Recv(); r != nil {
+			paramObj[r] = true
+		}
+		var isParamAt []bool
+		ast.Inspect(h.expr, func(n ast.Node) bool {
+			if id, ok := n.(*ast.Ident); ok {
+				isParamAt = append(isParamAt, paramObj[h.pkg.TypesInfo.Uses[id]])
+			}
+			return true
+		})
+		substId := map[*ast.Ident]bool{}
+		k := 0
+		ast.Inspect(e, func(n ast.Node) bool {
+			if id, ok := n.(*ast.Ident); ok {
+				if k < len(isParamAt) && isParamAt[k] {
+					substId[id] = true
+				}
+				k++
+			}
+			return true
+		})
+		if k != len(isParamAt) {
+			return true
+		}
 		e = astutil.Apply(&ast.ParenExpr{X: e}, func(c2 *astutil.Cursor) bool {
-			switch x := c2.Node().(type) {
-			case *ast.SelectorExpr:
-				// only the operand can be a parameter
-				if id, ok := x.X.(*ast.Ident); ok {
-					if r, ok := sub[id.Name]; ok {
-						x.X = &ast.ParenExpr{X: copyOf(r)}
-					}
-					return false
-				}
-			case *ast.KeyValueExpr:
-				// struct literal keys are field names, not parameters
-				if _, ok := x.Key.(*ast.Ident); ok {
-					okSub = false
-				}
-			case *ast.Ident:
+			if x, ok := c2.Node().(*ast.Ident); ok && substId[x] {
 				if r, ok := sub[x.Name]; ok {
 					c2.Replace(&ast.ParenExpr{X: copyOf(r)})
+				} else {
+					okSub = false
 				}
 			}
 			return true
@@ -1444,6 +1553,7 @@ func (nz *normalizer) rewriteExprs(p *packages.Package, f *ast.File, fd *ast.Fun
 			}
 			c.Replace(inner)
 			h.inl++
+			nz.countNested(h)
 			nz.changed[f] = p
 			nlog("substituted %s at %s", h.name, p.Fset.Position(call.Pos()))
 			return false
@@ -1456,6 +1566,7 @@ func (nz *normalizer) rewriteExprs(p *packages.Package, f *ast.File, fd *ast.Fun
 		}
 		c.Replace(&ast.CallExpr{Fun: &ast.ParenExpr{X: te}, Args: []ast.Expr{e}})
 		h.inl++
+		nz.countNested(h)
 		nz.changed[f] = p
 		nlog("substituted %s at %s", h.name, p.Fset.Position(call.Pos()))
 		return false
@@ -1491,7 +1602,7 @@ func closureInlinable(lit *ast.FuncLit, self types.Object, info *types.Info) str
 				why = "uses defer other than a top-level `defer x.m(pure args)`"
 			}
 		case *ast.LabeledStmt:
-			why = "has labels"
+			// labels are renamed per inlined copy
 		case *ast.BranchStmt:
 			if x.Tok == token.GOTO {
 				why = "uses goto"
@@ -1712,6 +1823,19 @@ func (nz *normalizer) hoistNested(p *packages.Package, f *ast.File, s ast.Stmt) 
 		}
 	case *ast.RangeStmt:
 		roots = append(roots, &x.X) // the range expression is evaluated once, before the loop
+	case *ast.DeclStmt:
+		// `var a, b = e1, e2` (the parameter binding of an inlined copy, among others)
+		gd, ok := x.Decl.(*ast.GenDecl)
+		if !ok || gd.Tok != token.VAR || len(gd.Specs) != 1 {
+			return nil, false
+		}
+		vs, ok := gd.Specs[0].(*ast.ValueSpec)
+		if !ok {
+			return nil, false
+		}
+		for i := range vs.Values {
+			roots = append(roots, &vs.Values[i])
+		}
 	default:
 		return nil, false
 	}
